@@ -273,3 +273,8 @@ Proof.
       * exists (e1 ++ [P]), e2. split; [rewrite <- app_assoc; exact E|].
         unfold exec. rewrite exec_from_app. exact HW.
 Qed.
+
+Lemma woken_runs : forall s, cp s = C_parked -> woken s = true -> cp (step C s) = C_poll.
+Proof.
+  intros [fx cap q cwk chan swk woken f pp cp polls wakes pends] Hc Hw; simpl in *; subst. reflexivity.
+Qed.
